@@ -31,12 +31,28 @@ Record field := { f_name : nat; f_ty : ty; f_default : bool }.
    into c_fields / the hook flags).  c_tag: the class body binds the discriminator attribute itself
    (variant.__dict__["kind"]).  c_disc: the class's own Config has a discriminator with include_subtypes;
    Some true = with field (dispatch on the tag), Some false = without field (try every subclass). *)
+(* the other keyword-adding code generation options of a class: (TO_DICT_ADD_OMIT_NONE_FLAG,
+   TO_DICT_ADD_BY_ALIAS_FLAG, ADD_DIALECT_SUPPORT).  They never reach a hook; they decide which keywords a call
+   passes, which calls raise TypeError and which union members share one call expression. *)
+Definition xf := (bool * bool * bool)%type.
+Definition xf_none : xf := (false, false, false).
+Definition xf_and (a b: xf) : xf :=
+  match a, b with (a1, a2, a3), (b1, b2, b3) => (a1 && b1, a2 && b2, a3 && b3) end.
+Definition impb (a b: bool) : bool := negb a || b.
+Definition xf_le (a b: xf) : bool :=
+  match a, b with (a1, a2, a3), (b1, b2, b3) => impb a1 b1 && impb a2 b2 && impb a3 b3 end.
+Definition xf_eqb (a b: xf) : bool :=
+  match a, b with (a1, a2, a3), (b1, b2, b3) => Bool.eqb a1 b1 && Bool.eqb a2 b2 && Bool.eqb a3 b3 end.
+
 Record cinfo := { c_fields : list field;
                   c_pre : bool; c_post : bool; c_prede : bool; c_postde : bool;
                   c_ctx : bool;
-                  c_parent : option nat; c_tag : option nat; c_disc : option bool }.
+                  c_parent : option nat; c_tag : option nat; c_disc : option bool;
+                  c_xf : xf }.
 Definition env := list cinfo.
-Definition mk_cinfo fl pre post prede postde ctx : cinfo := Build_cinfo fl pre post prede postde ctx None None None.
+Definition mk_cinfo fl pre post prede postde ctx : cinfo := Build_cinfo fl pre post prede postde ctx None None None xf_none.
+Definition mk_cinfo_h fl pre post prede postde ctx par tag disc : cinfo :=
+  Build_cinfo fl pre post prede postde ctx par tag disc xf_none.
 Definition empty_class : cinfo := mk_cinfo [] false false false false false.
 Definition cls (E: env) (c: nat) : cinfo := nth c E empty_class.
 
@@ -121,6 +137,14 @@ Fixpoint dedup_bool (l: list bool) (seen_t seen_f: bool) : list bool :=
   | true :: r => if seen_t then dedup_bool r seen_t seen_f else true :: dedup_bool r true seen_f
   | false :: r => if seen_f then dedup_bool r seen_t seen_f else false :: dedup_bool r seen_t true
   end.
+(* distinct call expressions of a mixin union: (context keyword passed?, other keywords passed) *)
+Definition pf := (bool * xf)%type.
+Definition pf_eqb (a b: pf) : bool := Bool.eqb (fst a) (fst b) && xf_eqb (snd a) (snd b).
+Fixpoint dedup_pf (l: list pf) (seen: list pf) : list pf :=
+  match l with
+  | [] => []
+  | x :: r => if existsb (pf_eqb x) seen then dedup_pf r seen else x :: dedup_pf r (x :: seen)
+  end.
 Fixpoint dedup_nat (l: list nat) (seen: list nat) : list nat :=
   match l with
   | [] => []
@@ -135,8 +159,9 @@ Section Pack.
   Variable E : env.
   Variable stubs : bool.   (* classes derive from DataClassDictMixin (which has stub hooks returning None) *)
 
-  (* a sub-value, already closed over the recursive call: type -> parent opted in -> parent's token -> M *)
-  Definition sub := ty -> bool -> ctxtok -> M.
+  (* a sub-value, already closed over the recursive call:
+     type -> calling class opted in -> calling class's other options -> its token -> M *)
+  Definition sub := ty -> bool -> xf -> ctxtok -> M.
 
   (* Body of the to_dict generated for class cg, running on an instance (i, pre hook returns j)
      whose runtime class is cr.  kk: what the hooks receive; pc/ck: what is forwarded. *)
@@ -154,7 +179,7 @@ Section Pack.
     let pre_part : M := if c_pre G then (if c_pre R then ok_ [Pre cr i kk] else fail_) else ok_ [] in
     let fields_part : M :=
       seqM (map (fun f => match assoc (f_name f) subs with
-                          | Some s => s (f_ty f) (c_ctx G) ck
+                          | Some s => s (f_ty f) (c_ctx G) (c_xf G) ck
                           | None => fail_ end) (c_fields G)) in
     (* the instance's class does not declare the hook the generated code calls: a plain class has no such
        attribute (AttributeError); DataClassDictMixin's stub takes no context keyword (TypeError) and
@@ -163,9 +188,10 @@ Section Pack.
                                            else (stubs && negb (c_ctx G), [])) else ok_ [] in
     if early_fail G R then seq2 pre_part fail_ else seq2 pre_part (seq2 fields_part post_part).
 
-  (* value.__mashumaro_to_dict__([context=context]) *)
-  Definition call_mixin (pass: bool) (k: ctxtok) (cr i j: nat) (subs: list (nat * sub)) : M :=
-    if pass && negb (c_ctx (cls E cr)) then fail_          (* TypeError: unexpected keyword *)
+  (* value.__mashumaro_to_dict__([omit_none=..][, by_alias=..][, dialect=..][, context=context]) *)
+  Definition call_mixin (pass: bool) (px: xf) (k: ctxtok) (cr i j: nat) (subs: list (nat * sub)) : M :=
+    if (pass && negb (c_ctx (cls E cr))) || negb (xf_le px (c_xf (cls E cr)))
+    then fail_          (* TypeError: unexpected keyword *)
     else let kin := if pass then k else CNone in
          body cr cr i j subs (if c_ctx (cls E cr) then kin else CAbsent) kin.
 
@@ -178,30 +204,30 @@ Section Pack.
       match v with
       | VInst cr i j fs => Some (cr, i, j, map (fun kx => match kx with (k, x) => (k, pack m x) end) fs)
       | _ => None end in
-    let call_dc (cs: nat) (pc: bool) (k: ctxtok) : M :=
+    let call_dc (cs: nat) (pc: bool) (px: xf) (k: ctxtok) : M :=
       match inst with
       | Some (cr, i, j, subs) =>
           match m with
-          | Mixin => call_mixin (pc && c_ctx (cls E cs)) k cr i j subs
+          | Mixin => call_mixin (pc && c_ctx (cls E cs)) (xf_and px (c_xf (cls E cs))) k cr i j subs
           | Codec => call_codec cs cr i j subs
           end
       | None => fail_ end in
-    fix on_ty (t: ty) : bool -> ctxtok -> M :=
-      fun pc k =>
+    fix on_ty (t: ty) : bool -> xf -> ctxtok -> M :=
+      fun pc px k =>
       match t with
       | TInt => ok_ []
-      | TDc c => call_dc c pc k
-      | TDisc p _ _ => call_dc p pc k       (* the annotation plays no role for packing *)
+      | TDc c => call_dc c pc px k
+      | TDisc p _ _ => call_dc p pc px k       (* the annotation plays no role for packing *)
       | TList t' => match v with
-                    | VList l => seqM (map (fun x => pack m x t' pc k) l)
+                    | VList l => seqM (map (fun x => pack m x t' pc px k) l)
                     | _ => fail_ end
-      | TOpt t' => match v with VNone => ok_ [] | _ => on_ty t' pc k end
+      | TOpt t' => match v with VNone => ok_ [] | _ => on_ty t' pc px k end
       | TUnion cs =>
           match inst with
           | Some (cr, i, j, subs) =>
               match m with
-              | Mixin => try_each (map (fun pass => call_mixin pass k cr i j subs)
-                                       (dedup_bool (map (fun c => pc && c_ctx (cls E c)) cs) false false))
+              | Mixin => try_each (map (fun a => call_mixin (fst a) (snd a) k cr i j subs)
+                                       (dedup_pf (map (fun c => (pc && c_ctx (cls E c), xf_and px (c_xf (cls E c)))) cs) []))
               | Codec => try_each (map (fun c => call_codec c cr i j subs) (dedup_nat cs []))
               end
           | None => fail_ end
@@ -248,11 +274,12 @@ Section Wt.
   (* v is a value of type t: every instance has exactly the declared class (for a union: one
      of the members), its attributes are the class's fields in order, and when the class has
      no pre hook the "returned" identity is the instance itself. *)
-  (* allow = true: an instance of a subclass may stand where the parent is declared, provided both agree on the
-     context option (the keyword list of the call is computed from the declared class) *)
+  (* allow = true: an instance of a subclass may stand where the parent is declared, provided both have the same
+     keyword-adding options (the keyword list of the call is computed from the declared class) *)
   Variable allow : bool.
   Definition class_ok (cr c: nat) : bool :=
-    (cr =? c) || (allow && is_sub E cr c && Bool.eqb (c_ctx (cls E cr)) (c_ctx (cls E c))).
+    (cr =? c) || (allow && is_sub E cr c && xf_eqb (c_xf (cls E cr)) (c_xf (cls E c))
+                  && Bool.eqb (c_ctx (cls E cr)) (c_ctx (cls E c))).
   Fixpoint wt (v: val) {struct v} : ty -> bool :=
     let inst_ok (c: nat) : bool :=
       match v with
@@ -481,10 +508,10 @@ Definition oval_eqb (a b: option val) : bool :=
 (* what the harness evaluates per case *)
 (* ok = None: the call raised inside a format library's encoder after the generated code returned
    (the model has no outputs), only the trace is compared *)
-Definition ser_case := (mode * bool * env * val * ty * bool * ctxtok * option bool * list ev)%type.
+Definition ser_case := (mode * bool * env * val * ty * bool * xf * ctxtok * option bool * list ev)%type.
 Definition ser_ok (c: ser_case) : bool :=
-  match c with (m, st, E, v, t, pc, k, ok, tr) =>
-    match pack E st m v t pc k with
+  match c with (m, st, E, v, t, pc, px, k, ok, tr) =>
+    match pack E st m v t pc px k with
     | (ok', tr') => match ok with Some b => Bool.eqb b ok' | None => true end && evs_eqb tr tr' end end.
 Definition de_case := (env * wire * ty * option val * list ev)%type.
 Definition de_ok (c: de_case) : bool :=
